@@ -194,3 +194,65 @@ func (c *FuncCtx) hasSuffix(s, p string) string {
 	}
 	return fmt.Sprintf("(str_hassuffix %s %s)", s, p)
 }
+
+// sync.Pool.Get on a package-level pool: the dynamic type of the result is the type produced by the pool's
+// New function (found in the package initialiser) — assumption: Put is only called with values of that type.
+func init() {
+	builtinModels["(*sync.Pool).Put"] = &model{fn: noop}
+	builtinModels["(*sync.Pool).Get"] = &model{fn: func(f *Frame, cur *blockCur, in ssa.Instruction, cc *ssa.CallCommon, args []Val, rt types.Type, hint string) Val {
+		r := f.freshVal(rt, hint)
+		g, ok := cc.Args[0].(*ssa.Global)
+		if !ok {
+			return r
+		}
+		if t := poolElemType(g); t != nil {
+			f.c.assume(fmt.Sprintf("sync.Pool %s only holds values of type %s (type produced by its New function; Put call sites not checked)", g.Name(), t))
+			cur.assume(fmt.Sprintf("(and (= (i_tag %s) %d) (not (= (i_val %s) 0)))", r.S, f.c.typeID(t), r.S))
+		}
+		return r
+	}}
+}
+
+func poolElemType(g *ssa.Global) types.Type {
+	initFn := g.Pkg.Func("init")
+	if initFn == nil {
+		return nil
+	}
+	for _, b := range initFn.Blocks {
+		for _, in := range b.Instrs {
+			st, ok := in.(*ssa.Store)
+			if !ok {
+				continue
+			}
+			fa, ok := st.Addr.(*ssa.FieldAddr)
+			if !ok || fa.X != ssa.Value(g) {
+				continue
+			}
+			var fn *ssa.Function
+			switch v := st.Val.(type) {
+			case *ssa.Function:
+				fn = v
+			case *ssa.MakeClosure:
+				fn, _ = v.Fn.(*ssa.Function)
+			}
+			if fn == nil {
+				continue
+			}
+			var found types.Type
+			for _, fb := range fn.Blocks {
+				for _, fi := range fb.Instrs {
+					if ret, ok := fi.(*ssa.Return); ok && len(ret.Results) == 1 {
+						if mi, ok := ret.Results[0].(*ssa.MakeInterface); ok {
+							if found != nil && !types.Identical(found, mi.X.Type()) {
+								return nil
+							}
+							found = mi.X.Type()
+						}
+					}
+				}
+			}
+			return found
+		}
+	}
+	return nil
+}
